@@ -11,6 +11,8 @@ import Signac.Migration
 import Signac.Discovery
 import Signac.Proofs.MigChain
 import Signac.Proofs.MigGate
+import Signac.PyInt
+import Signac.Proofs.PyIntLemmas
 namespace Signac.C20
 open Signac Signac.Mig Signac.Disc
 
@@ -164,5 +166,149 @@ example : Collides { exLegacy with ents := ("workspace", "precious") :: exLegacy
 example : ∀ v ∈ [some 0, some 1, some 3, some 10, none], (v : Option Nat).getD 1 ≠ SCHEMA := by decide
 
 example : (2 : Nat) = SCHEMA ∧ gate 2 = .ok := by decide
+
+/-! ### the version is a STRING in the config file
+
+`schema_version` is a string (configspec `string(default='1')`) that the code converts with
+Python's `int()`.  `PyInt.pyInt` models that conversion for ASCII input (`none` = ValueError),
+`PyInt.gateStr` the whole of `_check_schema_compatibility` on the string.  Helper lemmas:
+Signac/Proofs/PyIntLemmas.lean. -/
+open Signac.PyInt
+
+/-- Every version number the code itself writes (`config["schema_version"] = destination`,
+    `str` of an int) parses back to that number. -/
+theorem pyInt_repr (n : Nat) : pyInt (toString n) = some n := pyInt_toString n
+
+theorem pyInt_neg_repr (n : Nat) : pyInt ("-" ++ toString n) = some (-(n : Int)) :=
+  pyInt_neg_toString n
+
+/-- The string gate lets exactly the strings through that `int()` reads as the supported version. -/
+theorem gateStr_exact (s : String) : gateStr s = .ok ↔ pyInt s = some (SCHEMA : Int) :=
+  gateStr_ok_iff s
+
+/-- … every other string is refused: ValueError if it is not an integer literal,
+    IncompatibleSchemaVersion otherwise. -/
+theorem gateStr_refuses (s : String) (h : pyInt s ≠ some (SCHEMA : Int)) : gateStr s ≠ .ok :=
+  fun hg => h ((gateStr_exact s).mp hg)
+
+/-- which of the two refusals -/
+theorem gateStr_refusal (s : String) (h : pyInt s ≠ some (SCHEMA : Int)) :
+    gateStr s = (if pyInt s = none then .valueError else .incompatible) := by
+  have hne := gateStr_refuses s h
+  unfold gateStr at hne ⊢
+  cases hp : pyInt s with
+  | none => simp
+  | some v =>
+    rw [hp] at hne
+    simp only [reduceCtorEq, if_false]
+    split
+    · rfl
+    · split
+      · rfl
+      · rename_i h1 h2; simp only [h1, h2, if_false] at hne; exact absurd rfl hne
+
+/-- On the strings the code writes, the string gate is the `Nat` gate of the rest of the model. -/
+theorem gateStr_nat (n : Nat) :
+    gateStr (toString n) = (match gate n with | .ok => .ok | .incompatible => .incompatible) :=
+  gateStr_toString n
+
+/-- More generally: on every string that `int()` reads as a natural number (leading zeros, a
+    `+`, underscores, surrounding blanks) the string gate is the `Nat` gate on that number; every
+    other string (not an integer literal, or negative) is refused. -/
+theorem gateStr_declared (s : String) :
+    (∀ n, declared s = some n →
+      gateStr s = (match gate n with | .ok => .ok | .incompatible => .incompatible))
+    ∧ (declared s = none → gateStr s ≠ .ok) :=
+  ⟨fun n h => gateStr_of_declared s n h, gateStr_of_not_declared s⟩
+
+/-- `int()` accepts nothing but ASCII digits, underscores, a sign and the six ASCII blanks. -/
+theorem pyInt_digits_only (s : String) (v : Int) (h : pyInt s = some v) :
+    ∀ c ∈ s.toList, c.isDigit = true ∨ c = '_' ∨ c = '+' ∨ c = '-' ∨ isWs c = true :=
+  pyInt_chars s v h
+
+/-- so a string with any other character — a dot, an exponent, a letter, a NUL, any non-ASCII
+    character — is a ValueError, never a version -/
+theorem pyInt_rejects (s : String) (c : Char) (hc : c ∈ s.toList) (h1 : c.isDigit = false)
+    (h2 : c ≠ '_') (h3 : c ≠ '+') (h4 : c ≠ '-') (h5 : isWs c = false) : pyInt s = none := by
+  cases h : pyInt s with
+  | none => rfl
+  | some v =>
+    rcases pyInt_digits_only s v h c hc with e | e | e | e | e
+    · rw [h1] at e; cases e
+    · exact absurd e h2
+    · exact absurd e h3
+    · exact absurd e h4
+    · rw [h5] at e; cases e
+
+/-- "2.1" (or "2.0") can never be read as 2 -/
+theorem pyInt_no_dot (s : String) (h : '.' ∈ s.toList) : pyInt s = none :=
+  pyInt_rejects s '.' h (by decide) (by decide) (by decide) (by decide) (by decide)
+
+theorem gateStr_no_dot (s : String) (h : '.' ∈ s.toList) : gateStr s = .valueError := by
+  unfold gateStr; rw [pyInt_no_dot s h]
+
+/-- outside the ASCII range the model refuses everything (CPython accepts Unicode digits and
+    blanks there: a stated boundary of the model, see Signac/PyInt.lean) -/
+theorem pyInt_non_ascii (s : String) (c : Char) (hc : c ∈ s.toList) (h : 128 ≤ c.toNat) :
+    pyInt s = none := by
+  have hd : c.isDigit = false := by
+    cases hd : c.isDigit with
+    | false => rfl
+    | true =>
+      simp only [Char.isDigit, Bool.and_eq_true, decide_eq_true_eq] at hd
+      have := UInt32.le_iff_toNat_le.mp hd.2
+      simp only [Char.toNat] at h
+      have h57 : ('9' : Char).val.toNat = 57 := by decide
+      omega
+  have hne : ∀ d : Char, d.toNat < 128 → c ≠ d := fun d hd e => by subst e; omega
+  refine pyInt_rejects s c hc hd (hne _ (by decide)) (hne _ (by decide)) (hne _ (by decide)) ?_
+  simp only [isWs, Bool.or_eq_false_iff, decide_eq_false_iff_not]
+  exact ⟨⟨⟨⟨⟨hne _ (by decide), hne _ (by decide)⟩, hne _ (by decide)⟩, hne _ (by decide)⟩,
+    hne _ (by decide)⟩, hne _ (by decide)⟩
+
+/-- the digit limit of CPython ≥ 3.11 (`sys.set_int_max_str_digits`, default 4300, minimum 640)
+    only ever turns an accepted string into a ValueError, and not below 640 digits: in
+    particular every version number below 10^640 still parses back, under every setting -/
+theorem pyIntLim_sound (lim : Nat) (s : String) :
+    (∀ v, pyIntLim lim s = some v → pyInt s = some v)
+    ∧ (digitCount s ≤ 640 → pyIntLim lim s = pyInt s)
+    ∧ (∀ n : Nat, n < 10 ^ 640 → pyIntLim lim (toString n) = some n) :=
+  ⟨fun v h => pyIntLim_some lim s v h, pyIntLim_of_le lim s, fun n h => pyIntLim_toString lim n h⟩
+
+/-! examples (Python: `int("2") == 2`, `int("02") == 2`, …, `int("2.1")` ValueError, …) -/
+example : pyInt "2" = some 2 := by decide
+example : pyInt "02" = some 2 := by decide
+example : pyInt "+2" = some 2 := by decide
+example : pyInt " 2\n" = some 2 := by decide
+example : pyInt "\t\x0b\x0c 2 \r" = some 2 := by decide
+example : pyInt "2_0" = some 20 := by decide
+example : pyInt "-2" = some (-2) := by decide
+example : pyInt "-0" = some 0 := by decide
+example : pyInt "2.1" = none := by decide
+example : pyInt "2.0" = none := by decide
+example : pyInt "" = none := by decide
+example : pyInt " " = none := by decide
+example : pyInt "+" = none := by decide
+example : pyInt "2__0" = none := by decide
+example : pyInt "_2" = none := by decide
+example : pyInt "+_2" = none := by decide
+example : pyInt "2_" = none := by decide
+example : pyInt "2_ " = none := by decide
+example : pyInt "- 2" = none := by decide
+example : pyInt "+-2" = none := by decide
+example : pyInt "2 0" = none := by decide
+example : pyInt "1e1" = none := by decide
+example : pyInt "0x2" = none := by decide
+example : pyInt "two" = none := by decide
+example : pyInt "\x1c2" = none := by decide   -- \x1c is `str.isspace` but not `Py_ISSPACE`
+example : pyInt "٢" = none := by decide        -- model boundary: CPython says 2
+
+example : gateStr "2" = .ok ∧ gateStr "02" = .ok ∧ gateStr " +2\n" = .ok ∧ gateStr "0_2" = .ok := by
+  decide
+example : gateStr "1" = .incompatible ∧ gateStr "3" = .incompatible ∧ gateStr "2_0" = .incompatible
+    ∧ gateStr "-2" = .incompatible := by decide
+example : gateStr "2.1" = .valueError ∧ gateStr "2.0" = .valueError ∧ gateStr "" = .valueError
+    ∧ gateStr "two" = .valueError ∧ gateStr "2 0" = .valueError := by decide
+example : declared "02" = some 2 ∧ declared "-2" = none ∧ declared "2.1" = none := by decide
 
 end Signac.C20
